@@ -6,13 +6,32 @@ HOOK_COMMITS = subprocess.run(
     ["git", "-C", "/repo", "log", "--format=%H %s", "--grep=^verif hooks"], capture_output=True, text=True
 ).stdout.strip().splitlines()
 
+TRUST = "Trusted: the harness models and generators, revm/alloy/rocksdb/jsonrpsee; observation is the JSON-RPC surface driven in-process through jsonrpsee Methods (no sockets)."
+
+def C(technique, text, design, note=TRUST, category="exploration"):
+    return dict(technique=technique, text=text, design=design, note=note, category=category)
+
 CLAIMED = {
-    "C01": dict(
-        technique="stateful property-based testing (proptest): generated call histories with reorgs, differential oracle against a fresh replay of the surviving chain + acceptance-rule model",
-        text="Exploration: random protocol-conformant call histories (all indexer op kinds, generated EVM programs, commits/clears/reopens) with several reorgs per history inside and outside the 10-block window. After every accepted reorg and at the end of the history every query over the universe of addresses/slots/hashes/inscription ids/heights must equal a fresh instance fed only the surviving chain, replayed responses must be equal too; acceptance/refusal is compared with the rule of the property (highest-ever-finalised model); refused reorgs must leave the observation unchanged. Shows absence of counter-examples within the explored histories, not for all histories.",
-        note="Trusted: the harness chain model (which blocks survive commit/clear/reopen/reorg), the generated-program assembler, revm/rocksdb/jsonrpsee. Observation is the JSON-RPC query surface, not raw RocksDB bytes.",
-        design="3/C01",
-    ),
+    "C01": C("stateful property-based testing (proptest): generated call histories with reorgs; differential oracle against a fresh replay of the surviving chain + acceptance-rule model",
+        "Exploration: random protocol-conformant call histories (all indexer op kinds, generated EVM programs, commits/clears/reopens) with several reorgs per history inside and outside the 10-block window. After every accepted reorg and at the end, every query over the universe of addresses/slots/hashes/inscription ids/heights must equal a fresh instance fed only the surviving chain, replayed responses must be equal too; acceptance/refusal is compared with the rule of the property (highest-ever-finalised model); refused reorgs must leave the observation unchanged. Absence of counter-examples within the explored histories only.", "3/C01"),
+    "C02": C("property-based differential testing: twin instances fed one generated history (+ lossless restarts of one replica); pinned response digests of a frozen generated corpus",
+        "Exploration: the same generated history is fed to two instances (independently seeded hash maps; one replica is committed+restarted at generated boundaries); every response and periodic full observations must be identical incl. array order. A frozen corpus of 48 generated histories is compared call by call with digests pinned for this PROTOCOL_VERSION/DB_VERSION (catches consensus-affecting constant changes).", "3/C02"),
+    "C03": C("metamorphic property-based testing over commit schedules; differential against a fresh replay for lossy steps",
+        "Exploration: (schedule) one generated history with no commit vs the same with commits (+clearCaches / stop-reopen right after) at generated boundaries: all responses and periodic observations identical. (lossy) histories with clearCaches (also mid-block) and restarts without commit: right after each lossy step and at the end the instance equals a fresh instance fed only the durable chain.", "3/C03"),
+    "C05": C("property-based fault injection into generated histories: out-of-protocol / malformed calls; before/after observation equality + twin without the rejected calls",
+        "Exploration: 1-6 out-of-protocol or malformed indexer calls (18 kinds) injected at generated positions incl. mid-block: must-reject kinds must error, every rejected call must leave the full observation unchanged, and the rest of the history must answer exactly like a twin that never saw them.", "3/C05"),
+    "C06": C("property-based testing with invariant oracle: chain coherence recomputed by independent code (own bloom, merkle, sums, RLP decode) over generated histories",
+        "Exploration: generated histories; at boundaries and at the end all cross-reference invariants of the property are recomputed over all heights and all receipts ever returned. One known finding (tx hash reuse after a validation failure) is listed and excluded by signature.", "3/C06"),
+    "C07": C("model-based property testing: independent BRC20 ledger model vs generated deposit/withdraw/transfer/adversarial interleavings",
+        "Exploration: random interleavings of bridge calls, controller/token-level ERC20 calls by pkscripts, signers and a contract, adversarial owner-only calls, several ticker spellings and extreme amounts, across mining/commits/reorgs; balances, supply conservation and deposit/withdraw outcomes are compared with an independent ledger.", "3/C07"),
+    "C08": C("model-based testing: reference pending-pool model; bounded-exhaustive arrival orders (small scope) + random sequences",
+        "Exhaustive over a small scope (every arrival sequence of up to 3-4 signed transactions of one signer over nonces 0..3 x block-gap patterns {0,1,9,10,11}) and random sequences (3 signers, reorgs, clears, garbage, wrong chain): returned receipts, indexes, txpool_content(+From), account nonces and on-chain nonce order are compared with a reference pool model after every call.", "3/C08"),
+    "C13": C("model-based testing of the storage components: bounded-exhaustive BFS over one history + random op sequences on real tables vs an in-memory versioned map",
+        "Bounded-exhaustive: all op sequences up to length 8 (quick) / 11 (thorough) over {set a, set b, unset, advance 1/9/10/11, rollback 0..11} on one BlockHistoryCacheData, from 5 start states, states merged; plus random sequences on real BlockCachedDatabase tables (two key types) and a BlockDatabase on tmpfs with commit/discard/reopen/rollback/range scans against a durable+volatile model; persisted rows are read back for the 11-version bound.", "3/C13"),
+    "C14": C("property-based round-trip / algebraic-law testing of the codecs (encode-decode, concatenation, key order, JSON stability)",
+        "Exploration: pairs of generated values of every persisted/served type: lossless round trip with exact consumption, self-delimitation under concatenation, order preservation for numeric and composite keys, JSON text stability.", "3/C14"),
+    "C15": C("property-based round-trip + boundedness testing of the payload decoder; twin differential for hex vs base64 submission",
+        "Exploration: payloads of all shapes and sizes up to and beyond the limit through the published encoder and hand packers, bombs, arbitrary text; decode == original, never more than the limit, never a panic; generated histories submitted through the hex field vs the base64 field on twins must give identical responses and state.", "3/C15"),
 }
 
 NOT_YET = {}
